@@ -23,6 +23,7 @@ import (
 	"runtime/debug"
 	"strings"
 	"sync"
+	"time"
 
 	"vharness/common"
 	"vharness/coqgen"
@@ -283,9 +284,9 @@ func (d *drv) removalStream() {
 				base.Decode.Class, base.Decode.Msg, base.Verify.Class, base.Verify.Msg), verifyInput{Stream: "verify", Arte: b.Arte()})
 			continue
 		}
-		k := d.cfg.Pick(10, 12)
+		k := d.cfg.Pick(9, 12)
 		if strings.HasSuffix(b.Name, "-genesis") {
-			k = d.cfg.Pick(8, 12)
+			k = d.cfg.Pick(7, 12)
 		}
 		ex := exhaustiveMembers(b, k)
 		for _, m := range ex {
@@ -388,19 +389,33 @@ func Run(cfg *common.Config) (*common.Report, error) {
 		return rep, d.writeShards()
 	}
 	debug.SetGCPercent(400)
+	t0 := time.Now()
+	lap := func(name string) {
+		rep.Notes = append(rep.Notes, fmt.Sprintf("timing %s: %.1fs", name, time.Since(t0).Seconds()))
+		t0 = time.Now()
+	}
 	d.removalStream()
+	lap("removal")
 	d.artefactStream()
+	lap("artefacts")
 	d.siblingStream()
+	lap("siblings")
 	d.resolverStream()
+	d.programmaticStatusStream()
+	lap("resolvers")
 	d.mutationStream()
+	lap("mutation")
 	d.hashValueStream()
+	lap("hashvalue")
 	if err := d.gobStream(); err != nil {
 		return nil, err
 	}
+	lap("gob")
 	rcs, err := d.documentStream()
 	if err != nil {
 		return nil, err
 	}
+	lap("documents")
 	rep.Exhaustive = true
 	rep.Notes = append(rep.Notes,
 		"exhaustive: every subset of the listed k optional members (see distribution exhaustive-subsets:*), every single member and (thorough: every pair of members; quick: every pair of members of the proof object of the two `published` bundles) of four valid artefact sets; 2^10 subsets of the status answer, 2^12 of the DID document, 2^6 of the gist proof",
@@ -542,6 +557,8 @@ func (d *drv) replay() error {
 		}
 		d.rep.Failures = keep
 		d.cases = nil
+	case "status-go-value":
+		d.programmaticStatusStream()
 	case "did-resolver", "status-resolver":
 		var in resolverInput
 		if err := json.Unmarshal(rf.Input, &in); err != nil {
